@@ -62,6 +62,10 @@ func EncodeCMPPContentAndSplit(ctx context.Context, content string, msgFmt datac
 	contents [][]byte, actualMsgFmt datacoding.CMPPDataCoding, err error,
 ) {
 	actualMsgFmt = msgFmt
+	if !datacoding.IsValidCMPPDataCoding(msgFmt) {
+		// GetCMPPCodec encodes an unsupported msgFmt as UCS2: report what was actually used
+		actualMsgFmt = datacoding.CMPP_CODING_UCS2
+	}
 	var encodedData []byte
 	encoder := datacoding.GetCMPPCodec(msgFmt, content)
 	encodedData, err = encoder.Encode()
@@ -125,6 +129,10 @@ func EncodeSMPPContentAndSplit(ctx context.Context, content string, msgFmt datac
 		actualMsgFmt = datacoding.SMPP_CODING_UCS2
 	}
 
+	if !datacoding.IsValidSMPPDataCoding(actualMsgFmt) {
+		// GetSMPPCodec encodes an unsupported msgFmt as UCS2: report what was actually used
+		actualMsgFmt = datacoding.SMPP_CODING_UCS2
+	}
 	var encodedData []byte
 	encoder := datacoding.GetSMPPCodec(actualMsgFmt, content)
 	encodedData, err = encoder.Encode()
